@@ -381,6 +381,19 @@ def writer_reuse_across_configs(ctx, b, d):
                 cases.append({"id": len(cases) + 1, "kind": "writer", "lives": True, "input": {"family": "bytes", "len": len(data), "seed": 0, "bytes": data},
                               "opts": dict(base, code=ca, legacy=True, conc=conc), "calls": calls, "seed": 1, "perturb": 0, "poison": False,
                               "ref": refs[(conc, False, ca)], "from": "legacy/%d" % ca, "to": "frame/%d (legacy switched off only)" % ca})
+    # ... a first life that is NOT closed (Reset in the middle of a block) before a larger block size is applied
+    for conc in (1, 4):
+        for ca, cb in ((4, 5), (4, 6), (5, 6)):
+            calls = [{"op": "write", "n": len(first)}, {"op": "reset"}, {"op": "apply", "n": cb}, {"op": "write", "n": len(second)}, {"op": "close"}]
+            big = (words * 30)[:400000]
+            data = first + list(big)
+            calls = [{"op": "write", "n": len(first)}, {"op": "reset"}, {"op": "apply", "n": cb}, {"op": "write", "n": len(big)}, {"op": "close"}]
+            rid = len(cases) + 1
+            cases.append({"id": rid, "kind": "writer", "lives": True, "input": {"family": "bytes", "len": len(big), "seed": 0, "bytes": list(big)},
+                          "opts": dict(base, code=cb, legacy=False, conc=conc), "calls": [{"op": "write", "n": len(big)}, {"op": "close"}], "seed": 1, "perturb": 0, "poison": False})
+            cases.append({"id": len(cases) + 1, "kind": "writer", "lives": True, "input": {"family": "bytes", "len": len(data), "seed": 0, "bytes": data},
+                          "opts": dict(base, code=ca, legacy=False, conc=conc), "calls": calls, "seed": 1, "perturb": 0, "poison": False,
+                          "ref": rid, "from": "frame/%d (not closed)" % ca, "to": "frame/%d" % cb})
     # ... two legacy lives in a row before the switch back (what is remembered must not be overwritten by the second)
     for conc in (1, 4):
         for ca in (4, 5):
